@@ -467,6 +467,57 @@ fn invlpgb_all(r: &mut Rep, a: &Args) {
     }
 }
 
+// Call sites that keep a condition alive in the arithmetic flags across a flush: the counter is decremented, the flush runs, and
+// only then the code branches on "counter reached zero" (the flush wrappers promise to leave the arithmetic flags alone).
+#[inline(never)]
+fn flag_site_expired(out: &mut [u64; 2]) {
+    unsafe { core::ptr::write_volatile(&mut out[1], 0xaaaa) };
+}
+macro_rules! flag_site {
+    ($name:ident, |$x:ident| $body:expr) => {
+        #[inline(never)]
+        fn $name(counter: &mut u64, $x: u64) -> u64 {
+            *counter -= 1;
+            let zero = *counter == 0;
+            #[allow(unused_unsafe)]
+            unsafe { $body };
+            let mut out = [0u64; 2];
+            if zero {
+                unsafe { core::ptr::write_volatile(&mut out[0], $x) };
+                flag_site_expired(&mut out);
+            } else {
+                unsafe { core::ptr::write_volatile(&mut out[1], 0x5555) };
+            }
+            unsafe { core::ptr::read_volatile(&out[1]) }
+        }
+    };
+}
+flag_site!(fl_flush, |x| tlb::flush(VirtAddr::new_truncate(x)));
+flag_site!(fl_flush_all, |x| tlb::flush_all());
+flag_site!(fl_tok, |x| MapperFlush::new(Page::<Size4KiB>::containing_address(VirtAddr::new_truncate(x))).flush());
+flag_site!(fl_tok_all, |x| MapperFlushAll::new().flush_all());
+flag_site!(fl_pcid, |x| tlb::flush_pcid(InvPcidCommand::Address(VirtAddr::new_truncate(x), Pcid::new((x >> 12) as u16 & 0xfff).unwrap())));
+flag_site!(fl_pcid_all, |x| tlb::flush_pcid(InvPcidCommand::All));
+
+fn flag_sites(r: &mut Rep) {
+    let sites: &[(&str, fn(&mut u64, u64) -> u64)] = &[("tlb::flush", fl_flush), ("tlb::flush_all", fl_flush_all), ("MapperFlush::flush", fl_tok), ("MapperFlushAll::flush_all", fl_tok_all), ("flush_pcid(Address)", fl_pcid), ("flush_pcid(All)", fl_pcid_all)];
+    for &(name, f) in sites {
+        for x in [0u64, 0x7000, 0x0000_7fff_ffff_f000, 0xffff_8000_0000_0000] {
+            for start in [1u64, 2, 3] {
+                cpu().cr[3] = x & 0x000f_ffff_ffff_f000;
+                use std::hint::black_box as bb;
+                let mut counter = bb(start);
+                let (rv, _) = one(true, || f(&mut counter, bb(x)));
+                r.ev(true);
+                let want = if start == 1 { 0xaaaa } else { 0x5555 };
+                if rv != Ok(want) || counter != start - 1 {
+                    r.viol(&format!("C11|{}|condition-computed-before-the-flush-is-wrong-after-it-(arithmetic-flags-not-preserved)", name), &format!("flushflags {} {:#x} {}", name, x, start), &format!("{:x?} expected {:#x}", rv, want));
+                }
+            }
+        }
+    }
+}
+
 pub fn run(a: &Args) {
     crate::simcpu::init();
     let mut r = Rep::new("C11", "flush-instructions");
@@ -478,6 +529,7 @@ pub fn run(a: &Args) {
             "pcid" => pcid_case(&mut r, t[1].parse().unwrap(), h(t[2]), t[3] == "true"),
             "flush" | "tokflush" | "tokpage" => flush_single(&mut r, a),
             "flushrepeat" => repetition(&mut r),
+            "flushflags" => flag_sites(&mut r),
             _ => invlpgb_all(&mut r, &Args { prop: "C11".into(), tier: a.tier.clone(), shard: 0, nshards: 1, replay: None, extra: vec![] }),
         }
         r.emit();
@@ -489,6 +541,7 @@ pub fn run(a: &Args) {
     }
     if a.shard == 1 % a.nshards {
         guarded(&mut r, "C11|flush|unexpected-panic", || "flushrepeat".into(), |r| repetition(r));
+        guarded(&mut r, "C11|flush|unexpected-panic", || "flushflags".into(), |r| flag_sites(r));
     }
     // all 4096 PCIDs x 4 kinds
     let addrs = canon();
